@@ -153,6 +153,10 @@ const hugeMagic = "\x00VERIF-HUGE:"
 
 var hugeSizes = []int{0x1e00000 - 4096, 0x1e00000, 0x1e00000 + 1, 0x1e00000 + 700000}
 
+// sizes between the small classes and the pipe limit: around 1 MiB and a few MiB (block-wise or
+// parallel processing of a body shows only above the block size)
+var midSizes = []int{1<<20 - 1, 1 << 20, 1<<20 + 17, 2<<20 + 5, 3<<20 + 4096 + 9, 5 << 20}
+
 var hugeCache = map[int][]byte{}
 
 func bx(b []byte) []byte {
@@ -174,15 +178,50 @@ func bx(b []byte) []byte {
 func isHuge(op Op) bool {
 	for _, b := range op.B {
 		if bytes.HasPrefix(b, []byte(hugeMagic)) {
-			return true
+			if n, _ := strconv.Atoi(string(b[len(hugeMagic):])); n >= 16<<20 {
+				return true
+			}
 		}
 	}
 	return false
 }
 
+func isMid(op Op) bool {
+	for _, b := range op.B {
+		if bytes.HasPrefix(b, []byte(hugeMagic)) {
+			if n, _ := strconv.Atoi(string(b[len(hugeMagic):])); n < 16<<20 {
+				return true
+			}
+		}
+	}
+	return false
+}
+
+func ivEdge(iv []byte) string {
+	if len(iv) != 16 || allZero(iv) {
+		return ""
+	}
+	n := 0
+	for i := 15; i >= 0 && iv[i] == 0xff; i-- {
+		n++
+	}
+	switch {
+	case n == 16:
+		return "iv:all-ff"
+	case n >= 8:
+		return "iv:low-64-bits-ff"
+	case iv[14] == 0xff && iv[13] == 0xff && iv[12] == 0xff && iv[15] >= 0xf0:
+		return "iv:low-32-bits-about-to-carry"
+	}
+	return ""
+}
+
 func genBin(t *rapid.T, label string) []byte {
 	if rapid.IntRange(0, 59).Draw(t, label+"_huge") == 0 {
 		return []byte(hugeMagic + strconv.Itoa(rapid.SampledFrom(hugeSizes).Draw(t, label+"_hugesize")))
+	}
+	if rapid.IntRange(0, 19).Draw(t, label+"_mid") == 0 {
+		return []byte(hugeMagic + strconv.Itoa(rapid.SampledFrom(midSizes).Draw(t, label+"_midsize")))
 	}
 	cls := rapid.SampledFrom([]string{"empty", "small", "zeros", "marker", "64k"}).Draw(t, label+"_cls")
 	switch cls {
@@ -381,6 +420,28 @@ func gen(t *rapid.T) Case {
 		c.Key = rapid.SliceOfN(rapid.Byte(), 32, 32).Draw(t, "key")
 		c.Key[0] |= 1
 		c.IV = rapid.SliceOfN(rapid.Byte(), 16, 16).Draw(t, "iv")
+		// one session in four has a counter block about to carry: the key stream of the Demon (and of
+		// crypto/cipher) treats all 16 bytes as one big-endian counter
+		switch rapid.IntRange(0, 15).Draw(t, "ivedge") {
+		case 0:
+			for i := range c.IV {
+				c.IV[i] = 0xff
+			}
+		case 1:
+			for i := 8; i < 16; i++ {
+				c.IV[i] = 0xff
+			}
+		case 2:
+			for i := 12; i < 16; i++ {
+				c.IV[i] = 0xff
+			}
+			c.IV[15] = byte(0xf0 + rapid.IntRange(0, 15).Draw(t, "ivlast"))
+		case 3:
+			for i := 1; i < 16; i++ {
+				c.IV[i] = 0xff
+			}
+			c.IV[15] = 0xfe
+		}
 	}
 	if rapid.IntRange(0, 4).Draw(t, "pivot?") == 0 {
 		c.Pivot = rapid.IntRange(1, 2).Draw(t, "pivot")
@@ -1113,10 +1174,19 @@ func classify(c Case) core.Class {
 		if isHuge(op) {
 			cl.Labels = append(cl.Labels, "binary-at-the-30MiB-limit(several check-ins)")
 		}
+		if isMid(op) {
+			cl.Labels = append(cl.Labels, "binary-1-5MiB")
+			if ivEdge(c.IV) != "" {
+				cl.Labels = append(cl.Labels, "binary-1-5MiB+iv-about-to-carry")
+			}
+		}
 		ks = append(ks, op.Kind)
 	}
 	if allZero(c.Key) {
 		cl.Labels = append(cl.Labels, "zero-key")
+	}
+	if e := ivEdge(c.IV); e != "" {
+		cl.Labels = append(cl.Labels, e)
 	}
 	if c.Pivot > 0 {
 		cl.Labels = append(cl.Labels, fmt.Sprintf("target-behind-%d-smb-hop(s)", c.Pivot))
